@@ -88,6 +88,17 @@ func runAPIProgram(ti, to jsonline.Template, lines []string) string {
 	return sb.String()
 }
 
+func setMember(doc *jnode, k string, v *jnode) {
+	for i, x := range doc.keys {
+		if x == k {
+			doc.kids[i] = v
+			return
+		}
+	}
+	doc.keys = append(doc.keys, k)
+	doc.kids = append(doc.kids, v)
+}
+
 func concStream(seed uint64, tier string, outDir string, props map[string]bool, focus string) *streamReport {
 	rep := &streamReport{Stream: "conc", Seed: seed, Distribution: map[string]int{}, Outcomes: map[string]int{}, OracleChecks: map[string]int{}}
 	r := newRng(seed, "conc")
@@ -114,6 +125,9 @@ func concStream(seed uint64, tier string, outDir string, props map[string]bool, 
 		// byte-slice raw types and a sub-row are always present in some column
 		inCols = append(inCols, colDesc{name: "bin", f: jsonline.Binary, typName: "[]byte"})
 		outCols = append(outCols, colDesc{name: "bin", f: jsonline.Binary, typName: "[]byte"}, colDesc{name: "sub", sub: []colDesc{{name: "q", f: jsonline.Numeric}}})
+		// date and date-time columns are always present too: their conversions go through package-level layouts
+		inCols = append(inCols, colDesc{name: "dt", f: jsonline.Date, typName: "time.Time"}, colDesc{name: "ts", f: jsonline.DateTime})
+		outCols = append(outCols, colDesc{name: "dt", f: jsonline.Date}, colDesc{name: "ts", f: jsonline.String, typName: "time.Time"})
 		ti, to := buildTemplate(inCols), buildTemplate(outCols)
 		G := 2 + r.intn(15)
 		// per-goroutine programs
@@ -121,6 +135,10 @@ func concStream(seed uint64, tier string, outDir string, props map[string]bool, 
 		for g := range programs {
 			for k := 2 + r.intn(3); k > 0; k-- {
 				doc := genTemplDoc(r, inCols, 0)
+				if r.bool() {
+					setMember(doc, "dt", &jnode{kind: 's', s: []string{"2021-09-24", "1999-12-31", "2020-02-29"}[r.intn(3)]})
+					setMember(doc, "ts", &jnode{kind: 's', s: []string{"2021-09-24T10:11:12Z", "2021-10-31T02:30:00.5+02:00"}[r.intn(2)]})
+				}
 				programs[g] = append(programs[g], c.lineOf(doc))
 			}
 		}
